@@ -402,6 +402,21 @@ def _literal_table(e) -> dict | None:
     return out
 
 
+_OPERATOR_FUNCS = {"operator.add": ast.Add, "operator.sub": ast.Sub, "operator.mul": ast.Mult, "operator.truediv": ast.Div,
+                   "operator.floordiv": ast.FloorDiv, "operator.mod": ast.Mod, "operator.pow": ast.Pow}
+
+
+def _other_aliases(f, other: str) -> set[str]:
+    """Locals of f every binding of which is the other operand or its expression (`rhs = other` / `rhs = other._expr`)."""
+    binds: dict[str, list] = {}
+    for a in own_nodes(f.node):
+        tg = a.targets if isinstance(a, ast.Assign) else [a.target] if isinstance(a, ast.AnnAssign) and a.value is not None else []
+        for t in tg:
+            if isinstance(t, ast.Name):
+                binds.setdefault(t.id, []).append(a.value)
+    return {k for k, v in binds.items() if v and all(norm(x) in (other, f"{other}._expr") for x in v)}
+
+
 def _expr_aliases(f) -> set[str]:
     """Locals of f bound (once) to `self._expr`: reading them is reading the expression."""
     binds: dict[str, list] = {}
@@ -437,6 +452,9 @@ def rule_r5(ctx):
         for e, r in exprs:
             inst = f"SymbolicDim.{name}: {norm(e)}"
             ok, why = False, ""
+            if isinstance(e, ast.Call) and (dotted_of(e.func) or "") in _OPERATOR_FUNCS and len(e.args) == 2 and not e.keywords:
+                # operator.add(a, b) is a + b
+                e = ast.BinOp(left=e.args[0], op=_OPERATOR_FUNCS[dotted_of(e.func)](), right=e.args[1])
             if isinstance(e, ast.Call) and isinstance(e.func, ast.Attribute) and norm(e.func.value) == "self":
                 base = e.func.attr
                 ok = reflected and DUNDER.get(base) is opcls and opcls in COMMUTATIVE and [norm(a) for a in e.args] == [other]
@@ -444,7 +462,7 @@ def rule_r5(ctx):
             elif isinstance(e, ast.BinOp):
                 l, rr = norm(e.left), norm(e.right)
                 selfs = ("self._expr", *sorted(_expr_aliases(f)))
-                others = (other, f"{other}._expr")
+                others = (other, f"{other}._expr", *sorted(_other_aliases(f, other)))
                 if type(e.op) is opcls:
                     ok = (l in others and rr in selfs) if reflected else (l in selfs and rr in others)
                     why = "operands in the wrong order for this (reflected) method" if not ok else ""
